@@ -87,6 +87,17 @@ def crashOn (old : Bytes) (ops : List Op) (i k : Nat) : Bytes :=
   | none => (runOn old ops).file
   | some op => (((ops.take i).foldl W.apply { file := old, pos := 0 }).applyCut op k).file
 
+/-- the states after 0, 1, …, all operations (computed once per case by the driver; `crashWith`
+    equals `crashOn`, see `VtProps.C12.crashWith_eq`) -/
+def prefixStates (w : W) : List Op → List W
+  | [] => [w]
+  | op :: ops => w :: prefixStates (w.apply op) ops
+
+def crashWith (states : List W) (ops : List Op) (i k : Nat) : Bytes :=
+  match ops[i]?, states[i]? with
+  | some op, some w => (w.applyCut op k).file
+  | _, _ => ((states[ops.length]?).map (·.file)).getD []
+
 /-! ### integers -/
 
 def beDec (bs : Bytes) : Nat := bs.foldl (fun acc b => acc * 256 + b) 0
@@ -312,9 +323,10 @@ def handleAux (args : List String) : Option String := do
   let old ← match rest with
     | "old" :: h :: _ => unhex h
     | _ => some []
-  let final := (runOn old ops).file
+  let states := prefixStates { file := old, pos := 0 } ops
+  let final := crashWith states ops ops.length 0
   let dec := tableDec tab
-  pure (String.join (cuts.map fun (i, k) => verdict fmt dec final (crashOn old ops i k)))
+  pure (String.join (cuts.map fun (i, k) => verdict fmt dec final (crashWith states ops i k)))
 
 def handle (args : List String) : String := (handleAux args).getD "bad-op"
 
